@@ -17,6 +17,7 @@ package redis
 import (
 	"strconv"
 	"strings"
+	"sync"
 )
 
 const (
@@ -26,22 +27,28 @@ const (
 // Config represents a server configuration.
 type Config struct {
 	params map[string]string
+	mutex  *sync.RWMutex
 }
 
 // newConfig returns a new configuration.
 func newConfig() *Config {
 	return &Config{
 		params: map[string]string{},
+		mutex:  &sync.RWMutex{},
 	}
 }
 
 // SetConfig sets a specified parameter.
 func (cfg *Config) SetConfig(key string, params string) {
+	cfg.mutex.Lock()
+	defer cfg.mutex.Unlock()
 	cfg.params[key] = params
 }
 
 // AppendConfig appends a specified parameter.
 func (cfg *Config) AppendConfig(key string, params string) {
+	cfg.mutex.Lock()
+	defer cfg.mutex.Unlock()
 	currParams, ok := cfg.params[key]
 	if !ok {
 		cfg.params[key] = params
@@ -52,12 +59,16 @@ func (cfg *Config) AppendConfig(key string, params string) {
 
 // ConfigString return the specified parameter.
 func (cfg *Config) ConfigString(key string) (string, bool) {
+	cfg.mutex.RLock()
+	defer cfg.mutex.RUnlock()
 	params, ok := cfg.params[key]
 	return params, ok
 }
 
 // ConfigInteger returns the specified parameter as an integer.
 func (cfg *Config) ConfigInteger(key string) (int, bool) {
+	cfg.mutex.RLock()
+	defer cfg.mutex.RUnlock()
 	params, ok := cfg.params[key]
 	if !ok {
 		return 0, false
@@ -71,5 +82,7 @@ func (cfg *Config) ConfigInteger(key string) (int, bool) {
 
 // RemoveConfig removes the specified parameter.
 func (cfg *Config) RemoveConfig(key string) {
+	cfg.mutex.Lock()
+	defer cfg.mutex.Unlock()
 	delete(cfg.params, key)
 }
